@@ -179,7 +179,10 @@ class TrackedAsyncIterator:
         self.h.entered.add(label)
         self.in_flight += 1
         try:
-            await self.h.sched.gate(label)
+            # a source may hand out several items without suspending in between (a buffered cursor, an async generator
+            # over a list): only every `source_burst`-th item waits for the scheduler
+            if self.i % getattr(self.h, 'source_burst', 1) == 0:
+                await self.h.sched.gate(label)
             if self.fail_at is not None and self.i == self.fail_at:
                 self.raised = True
                 raise self.fail_exc
